@@ -36,7 +36,8 @@ def case_fn(c):
         for f in fails:
             f["clause"] = "after an earlier run with other input values: " + f["clause"]
     elif kind == "population":
-        fails = oracle.check_population(c["ps"], T=c.get("T", 0.5), dt=c.get("dt", 0.05), solver=c.get("solver", "euler"))
+        fails = oracle.check_population(c["ps"], T=c.get("T", 0.5), dt=c.get("dt", 0.05), solver=c.get("solver", "euler"),
+                                        explicit_route=c.get("explicit_route", False))
     elif kind == "jacobian":
         fails = oracle.check_jacobian(c["model"], seed=c.get("seed", 0), sparse=c.get("sparse", False))
     elif kind == "frontends":
